@@ -38,12 +38,14 @@ CLAIMED = {
             'contained licenses occur in the container + pair correspondence on three Licensing instances',
             'Theorems over all pairs / triples of expression trees of the model; rewrites_equivalent from the rewrite invariance of simplify.',
             'Instance independence is structural in the model (the functions take no table) and is checked on three instances.', 'DESIGN.md section 4 C08'),
-    'C02': ('Coq proof of parser completeness for the grammar (every nesting depth, arity, redundant parentheses) and of the '
-            'greedy WITH grouping + exhaustive token strings and grammar-generated strings: correspondence and independent reference parser',
-            'Theorem bparse_complete over the stack-machine model of BooleanAlgebra.parse with arbitrary token strings and '
-            'positions; with_grouping_complete for LICENSE WITH LICENSE triples; the string level (layout, case, known names) '
-            'rests on the correspondence: all token strings <= 5/6 under both tokenizers and generated layouts over random tables.',
-            'String-level completeness (parse_valid_string) is not a Coq theorem yet; see DESIGN.md.', 'DESIGN.md section 4 C02'),
+    'C02': ('Coq proof: parser completeness for the grammar (every nesting depth, arity, redundant parentheses), greedy WITH grouping, '
+            'and the text level relative to a segmentation of the text (blocks spelling stored names, maximal runs of other words, every '
+            'reported match inside a name block): one token per block, unknown runs become one license keyed by their words, the parse '
+            'is the tree of the derivation + exhaustive token strings and grammar-generated strings, independent reference parser',
+            'Theorems bparse_complete, with_grouping_complete, tokenize_segments (Proofs/Segments.v: survival of dominant matches with '
+            'duplicates, coverage, position-ordered lists with equal members are equal) and parse_blocks (Proofs/Blocks.v).',
+            'The segmentation premise is the no-crossing proviso of the property; that a given layout satisfies it is shown per text '
+            '(example in Props/C02.v) and exercised by the generators.', 'DESIGN.md section 4 C02'),
     'C03': ('Coq proof, full statement on the model: no foreign exception from parse / validate for every table, flags and string; '
             'accepted token sequences are well formed (allowed adjacencies, balanced parentheses, non-empty); stray WITH refused; '
             'blank -> None; a parse error carries no token or points at a run of consecutive words of the text (position = start of '
